@@ -245,6 +245,19 @@ func cmdAnyutilReplay(args []string) {
 					}
 					return dst, anyutil.MarshalFrom(dst, m, proto.MarshalOptions{Deterministic: true})
 				}},
+				// a destination that already names this very type, in the other URL forms a resolver
+				// accepts (what anypb.New writes, a bare name, a host with a path): the result is
+				// "/" + full name all the same
+				{"MarshalFrom", func() (*anypb.Any, error) {
+					var last *anypb.Any
+					for _, u := range []string{"type.googleapis.com/", "", "//", "host.example/path/"} {
+						last = &anypb.Any{TypeUrl: u + string(mdx.FullName()), Value: []byte{1}}
+						if err := anyutil.MarshalFrom(last, m, proto.MarshalOptions{Deterministic: true}); err != nil || last.TypeUrl != "/"+string(mdx.FullName()) {
+							return last, err
+						}
+					}
+					return last, nil
+				}},
 				{"alias.New", func() (*anypb.Any, error) { return anyalias.New(m) }},
 			} {
 				var a *anypb.Any
@@ -289,6 +302,12 @@ func cmdAnyutilReplay(args []string) {
 			proj.Fill(proj.Impl(m), proj.Project(d.ProtoReflect(), proj.WrapNone), proj.WrapImpl)
 			refb, _ := proto.MarshalOptions{Deterministic: true}.Marshal(d)
 			checkPack(m, refb)
+			// the same value as a dynamicpb message: ONE Go type for every message type, so
+			// successive packs of different types go through whatever is keyed by the Go type
+			if k == 0 {
+				packs++
+				checkPack(d, refb)
+			}
 		}
 		// a value nested far deeper than any typical hand-picked limit, far below the default one
 		if path := cyclePath(mdx); path != nil {
